@@ -438,6 +438,8 @@ class HostBFM:
 
     def _addr(self, op):
         a = op.get("addr", "dev")
+        if isinstance(a, dict):             # {"xor": k}: another device's address, relative to ours
+            return (self.model.addr ^ a["xor"]) & 0x7F
         return self.model.addr if a == "dev" else a
 
     def _finish(self, txn):
